@@ -65,6 +65,19 @@ def run(ctx):
     # ---- R10.3 lazy, at most one instantiation per plug
     inst_main = [t for t in f.calls() if t.path == CG + "instantiate"]
     in_loop = [t for t in inst_main if cfg.reaches(t.bb, t.bb)]
+    # accepted idiom: `if cache.is_none() { cache = Some(graph.instantiate(plug)) }` — an instantiate guarded by is_none() of the
+    # Option that receives its result
+    def guarded_by_is_none(t):
+        for c in f.calls():
+            if (c.path or "").endswith("Option::is_none") and c.target is not None:
+                sw = switch_after(cfg, c)
+                if sw is not None:
+                    tt, ft = true_false_targets(sw)
+                    if any(cfg.dominates(x, t.bb) for x in tt) and not any(cfg.dominates(x, t.bb) for x in ft):
+                        return True
+        return False
+    lazy_guarded = [t for t in in_loop if guarded_by_is_none(t)]
+    in_loop = [t for t in in_loop if t not in lazy_guarded]
     ctx.ob("R10.3", "no-eager-instantiate", not in_loop,
            "plug() itself instantiates only outside loops (the socket, once)" if not in_loop else
            "a package is instantiated directly inside the per-plug/per-export loop (once per iteration instead of at most once per plug)",
@@ -76,6 +89,7 @@ def run(ctx):
         if any(c is not None and any(x.path == CG + "instantiate" for x in c.calls()) for c in clos) and cfg.reaches(t.bb, t.bb):
             # the Option it caches in is reset outside the inner loop: its `None` assignment is not inside the innermost cycle of the lazy call
             okl = True
+    okl = okl or bool(lazy_guarded)
     ctx.ob("R10.3", "lazy", okl, "the plug is instantiated through Option::get_or_insert_with inside the loop over recorded pairs" if okl else
            "no lazy (get_or_insert_with) instantiation of the plug found", site=f.span)
     other = [(b, t) for b in bodies[1:] for t in b.calls() if t.path == CG + "instantiate"]
